@@ -354,6 +354,9 @@ class Interp:
     def _is_tensor_class(self, ci: ClassInfo) -> bool:
         return any(x in ("Tensor", "torch.Tensor") for x in self.prog.all_external_bases(ci))
 
+    def _is_int_enum(self, ci: ClassInfo) -> bool:
+        return any(x.split(".")[-1] == "IntEnum" for x in self.prog.all_external_bases(ci))
+
     def _enum_names(self, ci: ClassInfo) -> List[str]:
         out = []
         for c in reversed(self.prog.mro(ci)):
@@ -548,7 +551,8 @@ class Interp:
                 raise InterpError("AttributeError", f"'{type(v).__name__}' object has no attribute '{attr}'")
         if v is None:
             raise InterpError("AttributeError", f"'NoneType' object has no attribute '{attr}'")
-        if isinstance(v, (HostObject, MM.HModuleDict, MM.HModuleList, MM.HookHandle)):
+        import re as _re
+        if isinstance(v, (HostObject, MM.HModuleDict, MM.HModuleList, MM.HookHandle, _re.Pattern, _re.Match)):
             try:
                 return getattr(v, attr)
             except AttributeError:
@@ -965,6 +969,13 @@ class Interp:
                 d[self.eval(k, frame)] = self.eval(v, frame)
         return d
 
+    def to_str(self, v) -> str:
+        if isinstance(v, (Obj, EnumVal, STObj)):
+            m = self.prog.find_method(v.cls, "__str__")
+            if m is not None:
+                return self.method(v, "__str__")
+        return str(v)
+
     def _e_JoinedStr(self, e, frame):
         parts = []
         for v in e.values:
@@ -972,7 +983,7 @@ class Interp:
                 parts.append(str(v.value))
             else:
                 try:
-                    parts.append(str(self.eval(v.value, frame)))
+                    parts.append(self.to_str(self.eval(v.value, frame)))
                 except (Unsupported, InterpError):
                     parts.append("?")
         return "".join(parts)
@@ -1016,6 +1027,10 @@ class Interp:
 
     def binop(self, op, a, b, node=None):
         t = type(op)
+        if isinstance(a, EnumVal) and isinstance(a.value, int):
+            a = a.value
+        if isinstance(b, EnumVal) and isinstance(b.value, int):
+            b = b.value
         if isinstance(a, STensor) or isinstance(b, STensor):
             if t is ast.MatMult:
                 return symt.matmul(a, b)
@@ -1122,6 +1137,12 @@ class Interp:
         if t is ast.NotIn:
             return not self._contains(b, a, node)
         name = {ast.Eq: "eq", ast.NotEq: "ne", ast.Lt: "lt", ast.LtE: "le", ast.Gt: "gt", ast.GtE: "ge"}[t]
+        if isinstance(a, EnumVal) and isinstance(a.value, int) and self._is_int_enum(a.cls) and not isinstance(b, EnumVal):
+            a = a.value
+        if isinstance(b, EnumVal) and isinstance(b.value, int) and self._is_int_enum(b.cls) and not isinstance(a, EnumVal):
+            b = b.value
+        if isinstance(a, EnumVal) and isinstance(b, EnumVal) and name in ("lt", "le", "gt", "ge") and a.cls == b.cls:
+            a, b = a.value, b.value
         if isinstance(a, STensor) or isinstance(b, STensor):
             if isinstance(a, STensor):
                 if isinstance(b, (STensor, Rat, int, Fraction)):
@@ -1230,6 +1251,12 @@ class Interp:
             if self._is_enum(c.cls):
                 return self._enum_member(c.cls, k)
             return c
+        import re as _re
+        if isinstance(c, _re.Match):
+            try:
+                return c[k]
+            except (IndexError, KeyError) as ex:
+                raise InterpError(type(ex).__name__, str(ex))
         self.unsupported(node, f"subscript of {type(c).__name__}")
 
     def _index_value(self, k):
@@ -1351,6 +1378,8 @@ class Interp:
         if fn is _delattr:
             self.delattr(args[0], args[1])
             return None
+        if fn is _str and args:
+            return self.to_str(args[0])
         if fn is _callable:
             return isinstance(args[0], (FuncVal, BoundMethod, ClassVal, External, ModObj)) or callable(args[0])
         if fn is _type:
@@ -1433,6 +1462,8 @@ class Interp:
             key = kwargs.get("key")
             if key is not None:
                 return sorted(seqs[0], key=lambda x: self.call_value(key, [x], {}), reverse=bool(kwargs.get("reverse", False)))
+            if seqs[0] and all(isinstance(x, EnumVal) for x in seqs[0]):
+                return sorted(seqs[0], key=lambda x: x.value, reverse=bool(kwargs.get("reverse", False)))
             return sorted(seqs[0], reverse=bool(kwargs.get("reverse", False)))
         if fn is _sum:
             acc = args[1] if len(args) > 1 else 0
@@ -1791,6 +1822,7 @@ _EXTERNAL_FUNCS: Dict[str, Callable] = {
     "math.isclose": lambda a, b, **k: compare("eq", a, b), "math.prod": lambda it: _prod(it),
     "re.match": _re_proxy("match"), "re.sub": _re_proxy("sub"), "re.subn": _re_proxy("subn"), "re.search": _re_proxy("search"),
     "re.split": _re_proxy("split"), "re.findall": _re_proxy("findall"), "re.fullmatch": _re_proxy("fullmatch"),
+    "re.compile": _re_proxy("compile"), "re.escape": _re_proxy("escape"), "re.finditer": _re_proxy("finditer"),
     "copy.copy": None, "copy.deepcopy": None,
     "torch.Size": lambda x=(): Size(_shape_of(x)), "torch.device": lambda *a, **k: CPU,
     "itertools.product": lambda *a, **k: list(__import__("itertools").product(*a, **k)),
